@@ -457,6 +457,9 @@ pub fn oracle(name: &str, rng: &mut Rng, n: usize, tier: &str) -> OracleReport {
                 let m = run_full("chia", flags, u64::MAX, &prog, &env, "");
                 if m.res != base.res {
                     rep.fail("budget_zero", format!("{} budget=0 -> {:?} but budget=u64::MAX -> {:?}", d(), base.res, m.res));
+                } else if m.res.is_ok() && m != base {
+                    // … including what the run leaves in the allocator (atom / pair / heap counters)
+                    rep.fail("budget_zero_counts", format!("{} budget=0 -> {:?} but budget=u64::MAX -> {:?}", d(), base, m));
                 }
                 if let Ok((c, v)) = &base.res {
                     let exempt_possible = flags & NEW_COST_MODEL != 0;
@@ -470,6 +473,8 @@ pub fn oracle(name: &str, rng: &mut Rng, n: usize, tier: &str) -> OracleReport {
                             Ok((c2, v2)) => {
                                 if c2 != c || v2 != v {
                                     rep.fail("budget_same", format!("{} budget={} got ({},{}) want ({},{})", d(), b, c2, v2, c, v));
+                                } else if o != base {
+                                    rep.fail("budget_zero_counts", format!("{} budget={} leaves {:?}, budget=0 leaves {:?}", d(), b, o, base));
                                 }
                                 if *c2 > b {
                                     rep.fail("budget_sound", format!("{} budget={} cost {} > budget", d(), b, c2));
